@@ -51,6 +51,19 @@ EXT = {
     ("Fe", "from_bytes"): Ext("Fe64.fromBytes {0}", [B32], "Fe", fails=True),
     ("Fe", "maybe_set"): Ext("Fe64.maybe_set {self} {0} {1}", ["Fe", "Choice"], None, outs=["self"], recv="Fe"),
     ("Fe", "maybe_swap_with"): Ext("maybe_swap_with {self} {0} {1}", ["Fe", "Choice"], None, outs=["self", 0], recv="Fe"),
+    ("Fe", "to_packed"): Ext("to_packed {self}", [], "[u64; 4]", fails=True, recv="Fe"),
+    ("Fe", "ct_eq"): Ext("Fe64.ct_eq {self} {0}", ["Fe"], "Choice", fails=True, recv="Fe"),
+    (None, "ct_array64_maybe_swap_with"): Ext("(fun r => (Fe.ofWords r.1, Fe.ofWords r.2)) (CT.ct_array64_maybe_swap_with (Fe.toWords {0}) (Fe.toWords {1}) {2})",
+                                              ["&mut Fe", "&mut Fe", "Choice"], None, outs=[0, 1]),
+    (None, "ct_array64_maybe_set"): Ext("Fe.ofWords (CT.ct_array64_maybe_set (Fe.toWords {0}) (Fe.toWords {1}) {2})",
+                                        ["&mut Fe", "Fe", "Choice"], None, outs=[0]),
+    ("choice", "negate"): Ext("CT.Choice.negate {self}", [], "Choice", recv="Choice"),
+    ("choice", "is_true"): Ext("CT.Choice.isTrue {self}", [], "bool", recv="Choice"),
+    ("list:u64", "ct_eq"): Ext("CT.array_u64_ct_eq ({self}.map UInt64.ofNat) ({0}.map UInt64.ofNat)", ["[u64; 4]"], "Choice", recv="[u64; 4]"),
+    (None, "lt_order"): Ext("Scalar64.lt_order {0}", ["Scalar"], "bool", fails=True),
+    (None, "mul"): Ext("Scalar64.mul {0} {1}", ["Scalar", "Scalar"], "Scalar", fails=True),
+    (None, "add"): Ext("Scalar64.add {0} {1}", ["Scalar", "Scalar"], "Scalar", fails=True),
+    ("Scalar", "bits"): Ext("(Scalar64.bits {self}).toList", [], "[i8; 256]", recv="Scalar"),
     # ---- constant_time.rs (tied by Props/C18KernelTie.lean)
     ("u8", "ct_eq"): Ext("CT.u8_ct_eq {self} {0}", ["u8"], "Choice", recv="u8"),
     ("u8", "ct_nonzero"): Ext("CT.u8_ct_nonzero {self}", [], "Choice", recv="u8"),
@@ -130,6 +143,7 @@ CONSTS = {
     "Fe::ZERO": ("Fe.ZERO", "Fe"), "Fe::ONE": ("Fe.ONE", "Fe"), "Fe::D": ("Fe.D", "Fe"), "Fe::D2": ("Fe.D2", "Fe"),
     "Fe::SQRTM1": ("Fe.SQRTM1", "Fe"),
     "Ge::ZERO": ("Ge.ZERO", "Ge"), "GePartial::ZERO": ("GePartial.ZERO", "GePartial"), "GePrecomp::ZERO": ("GePrecomp.ZERO", "GePrecomp"),
+    "BASE": ("X25519.BASE", "[u8; 32]"),
     "precomp::GE_BASE": ("GE_BASE", "[[GePrecomp; 8]; 32]"), "precomp::BI": ("BI", "[GePrecomp; 8]"),
 }
 PROG = Program(STRUCTS, EXT, OPS, CONSTS)
@@ -149,6 +163,11 @@ def E(fn, hints=None):
     return k
 
 
+I_FE2 = r"const MASK: u64 = \(1 << 51\) - 1;\s*impl Fe \{"      # the second `impl Fe` block of fe64/mod.rs
+I_SC1 = r"const MASK56: u64 = 0x00ff_ffff_ffff_ffff;\s*impl Scalar \{"
+SQR = Fn(PROG, F_FE64, "square_repeatdly", scope=I_FE2, owner="Fe", kind="limb_loop",
+         doc="`Fe::square_repeatdly`: the loop around the limb kernel (tied by Props/C15/KernelTieFe64.lean)")
+SQR.body_kernel = "KernelsFe64.square_repeatdly_body_src"
 I_AFF, I_P1P1, I_PART, I_GE, I_PRE = r"impl GeAffine \{", r"impl GeP1P1 \{", r"impl GePartial \{", r"impl Ge \{", r"impl GePrecomp \{"
 
 KERNELS = [
@@ -182,16 +201,42 @@ KERNELS = [
     K(F_GE, I_PRE, "ZERO", "GePrecomp", kind="const", name="GePrecomp.ZERO_src", doc="`GePrecomp::ZERO`"),
     K(F_GE, I_PRE, "maybe_set", "GePrecomp", doc="`GePrecomp::maybe_set`"),
     K(F_GE, I_PRE, "select", "GePrecomp", doc="`GePrecomp::select` (masked table lookup)"),
+    # ---------------------------------------------------------------- (c) ge.rs: the loops
+    K(F_GE, I_GE, "scalarmult_base", "Ge", doc="`Ge::scalarmult_base`: signed radix-16 recoding (carry loop), the two comb loops, four doublings"),
+    K(F_GE, I_PART, "double_scalarmult_vartime", "GePartial", fuel=["i + 1", "i + 1"],
+      doc="`GePartial::double_scalarmult_vartime`: slide recodings, odd multiples table, top-index search loop, window loop"),
     # ---------------------------------------------------------------- (e) ed25519.rs
     E("clamp_scalar"), E("extended_secret"), E("keypair_private"), E("keypair_public"), E("extended_scalar"),
     E("extended_scalar_bytes"), E("extended_to_public"), E("keypair"), E("signature_nonce"),
     E("signature", hints={"signature": "[u8; 64]"}), E("signature_extended", hints={"signature": "[u8; 64]"}),
     E("verify", hints={"d": "u8"}), E("exchange"), E("edwards_to_montgomery_x"),
+    # ---------------------------------------------------------------- (a) Fe: the compositions above the limb kernels
+    K(F_FE, r"impl Fe \{", "pow25523", "Fe", doc="`Fe::pow25523`"),
+    K(F_FE, r"impl Fe \{", "invert", "Fe", doc="`Fe::invert`"),
+    SQR,
+    K(F_FE64, I_FE2, "square_and_double", "Fe", doc="`Fe::square_and_double`"),
+    K(F_FE64, I_FE2, "is_nonzero", "Fe", doc="`Fe::is_nonzero`"),
+    K(F_FE64, I_FE2, "is_negative", "Fe", doc="`Fe::is_negative`"),
+    K(F_FE64, I_FE2, "maybe_swap_with", "Fe", doc="`Fe::maybe_swap_with`"),
+    K(F_FE64, I_FE2, "maybe_set", "Fe", doc="`Fe::maybe_set`"),
+    K(F_FE64, r"impl CtEqual for &Fe", "ct_eq", "Fe", doc="`impl CtEqual for &Fe`: `ct_eq`"),
+    K(F_FE64, r"impl CtEqual for &Fe", "ct_ne", "Fe", doc="`impl CtEqual for &Fe`: `ct_ne`", ext_key=None),
+    K(F_FE64, r"impl PartialEq for Fe", "eq", "Fe", doc="`impl PartialEq for Fe`", ext_key=None),
+    # ---------------------------------------------------------------- (b) Scalar
+    K(F_SC64, I_SC1, "from_bytes_canonical", "Scalar", doc="`Scalar::from_bytes_canonical`"),
+    Fn(PROG, F_SC64, "muladd", name="Scalar.muladd_src", ext_key=(None, "muladd"), doc="`scalar::muladd`"),
+    K(F_SC, r"impl Scalar \{", "slide", "Scalar", doc="`Scalar::slide`: the signed sliding-window recoding (three nested loops)"),
+    # ---------------------------------------------------------------- (d) curve25519/mod.rs, x25519.rs
+    Fn(PROG, F_CURVE, "curve25519", name="curve25519_src", doc="`curve25519`: clamping, the 255-step ladder with masked swaps, the final inversion"),
+    Fn(PROG, F_CURVE, "curve25519_base", name="curve25519_base_src", doc="`curve25519_base` (the source repeats the ladder)"),
+    Fn(PROG, F_X, "dh", name="X25519.dh_src", doc="`x25519::dh`"),
+    Fn(PROG, F_X, "base", name="X25519.base_src", doc="`x25519::base`"),
 ]
 
 HEADER = """import CxVerif.Impl.Ge
 import CxVerif.Impl.Ed25519
 import CxVerif.Impl.X25519
+import CxVerif.Extracted.KernelsFe64
 /-!
   Extracted.GlueCurve — the curve layer (ge.rs, ed25519.rs, curve25519/mod.rs, x25519.rs, Fe / Scalar compositions) as the source
   says it NOW (tools/ktx_glue_curve.py; specs: tools/kernels/glue_curve.py).  `Option`: `none` = a Rust panic, exactly where Rust
